@@ -398,7 +398,7 @@ func TestC20(t *testing.T) {
 		}
 	}
 	// every message / query of the module is reachable
-	wantTx := map[string]bool{"CreateFixedPriceAuction": true, "CreateBatchAuction": true, "CancelAuction": true, "PlaceBid": true, "ModifyBid": true}
+	wantTx := map[string]bool{"create-fixed-price-auction": true, "create-batch-auction": true, "cancel-auction": true, "place-bid": true, "modify-bid": true}
 	haveCmd := map[string]bool{}
 	for _, ci := range cmds {
 		haveCmd[ci.Group+"/"+ci.Name] = true
@@ -409,13 +409,12 @@ func TestC20(t *testing.T) {
 			report(col, t, "C20/missing-command/"+n, "the binary registers no command %s for the module", n)
 		}
 	}
-	_ = wantTx
 
 	// ---- tx round trips ----
 	rapid.Check(t, func(rt *rapid.T) {
 		var txCmds []cmdInfo
 		for _, ci := range cmds {
-			if ci.Group == "tx" && len(ci.Holders) > 0 {
+			if ci.Group == "tx" && len(ci.Holders) > 0 && wantTx[ci.Name] {
 				txCmds = append(txCmds, ci)
 			}
 		}
